@@ -974,6 +974,14 @@ def main_check(cid, tier, base_seed, jobs=None):
                     determinism)
     if tier == 'thorough' and not os.environ.get('VERIF_NO_EVIDENCE'):
         cov['line_reach_sample'] = line_reach(mod, base_seed, tier, getattr(mod, 'REACH_N', 60))
+    req = getattr(mod, 'REQUIRED_PROBES', [])
+    missing = [p for p in req if not any(k == p or k.startswith(p) for k, v in cov['reach_probes'].items() if v)]
+    cov['required_probes'] = list(req)
+    cov['required_probes_missing'] = missing
+    if missing and not os.environ.get('VERIF_COUNT') and not viol:
+        # the workload no longer reaches a condition it was built to reach (a seam is bypassed, a generator drifted):
+        # the batch proves less than it claims - say so loudly, in the output and in the evidence
+        lines.append('REACH-WARNING: property=%s probes stuck at zero: %s' % (mod.ID, ', '.join(missing)))
     write_evidence(mod, tier, base_seed, cov, _real_time() - t_start, len(new_viol))
     for ln in lines:
         print(ln)
